@@ -96,6 +96,9 @@ func solveOne(o *Obligation, opts solveOpts) {
 		return
 	}
 	o.Query = file
+	if o.Cover && opts.timeoutS > 2 && !opts.agree {
+		opts.timeoutS = 2
+	}
 	t0 := time.Now()
 	defer func() { o.TimeS = time.Since(t0).Seconds() }()
 	// stage 1: the fastest solver alone, short timeout
